@@ -164,6 +164,7 @@ pub fn child_main(tag: &str, args: &[String]) {
     let mut items = vec![];
     let mut special = vec![];
     let mut all = false;
+    let mut only: Vec<String> = vec![];
     let mut i = 0;
     while i < args.len() {
         match args[i].as_str() {
@@ -176,6 +177,10 @@ pub fn child_main(tag: &str, args: &[String]) {
                 special = parse_special(&args[i]);
             }
             "--all-kernels" => all = true,
+            "--only-kernels" => {
+                i += 1;
+                only = args[i].split(',').map(|x| x.to_string()).collect();
+            }
             _ => {}
         }
         i += 1;
@@ -192,7 +197,10 @@ pub fn child_main(tag: &str, args: &[String]) {
     };
     let lines = std::sync::Mutex::new(Vec::<String>::new());
     // run_items forces kernels itself, so run the kernel loop outside: call once per kernel family
-    for kind in kinds(all) {
+    for kind in kinds(all || !only.is_empty()) {
+        if !only.is_empty() && !only.iter().any(|k| k == kind_name(kind)) {
+            continue;
+        }
         std::thread::scope(|s| {
             for ch in &chunks {
                 let lines = &lines;
